@@ -12,6 +12,8 @@ struct Mat {
     c: usize,
     d: u32,
     w: Vec<Vec<u32>>,
+    /// beam widths asked for by the generator of the matrix (empty: the harness chooses)
+    beams: Vec<u32>,
 }
 
 impl Mat {
@@ -24,6 +26,8 @@ impl Mat {
             c: v["C"].as_u64().unwrap() as usize,
             d: v["D"].as_u64().unwrap() as u32,
             w,
+            beams: v.get("beams").and_then(|b| b.as_array())
+                .map(|b| b.iter().map(|x| x.as_u64().unwrap() as u32).collect()).unwrap_or_default(),
         }
     }
 
@@ -103,6 +107,16 @@ fn cases_for(trace: &mut Trace, m: &Mat, rng: &mut Rng, all_widths: bool, src: &
     let layout = if rng.chance(1, 3) { "transposed" } else { "contiguous" };
     run_case(trace, m, "greedy", 0, 0, layout, src);
     *n += 1;
+    if !m.beams.is_empty() {
+        // a matrix constructed for particular beam widths (TLC's beam-search model): the full n-best
+        // list at exactly those widths, through both entry points
+        for &bw in &m.beams {
+            run_case(trace, m, "beam_nbest", bw, bw, layout, src);
+            run_case(trace, m, "beam", bw, 1, layout, src);
+            *n += 2;
+        }
+        return;
+    }
     let b = num_label_seqs(m.t, m.c);
     let widths: Vec<u32> = if all_widths {
         (1..=b + 2).collect()
@@ -169,7 +183,7 @@ fn random_mat(rng: &mut Rng) -> Mat {
             row
         })
         .collect();
-    Mat { t, c, d, w }
+    Mat { t, c, d, w, beams: vec![] }
 }
 
 pub fn main_ctc() {
